@@ -37,6 +37,26 @@ Proof.
     lia.
 Qed.
 
+(* C06 with -I: the command line that is run is the substituted one, and it has been put to the system limiter *)
+Lemma fold8 lens : fold_right (fun l s => l + 1 + 8 + s) 0 lens = strings lens + 8 * N.of_nat (length lens).
+Proof. unfold strings. induction lens as [|l lens IH]; cbn [fold_right length]; [reflexivity|]. rewrite IH. lia. Qed.
+
+Theorem substituted_accepted c lens rl env fn :
+  fits_system c lens = true -> c_sys c = sys_budget (kernel_limit rl) env -> lens <> [] ->
+  Forall (fun len => len + 1 <= MAX_ARG_STRLEN) (env_strings env) ->
+  fn + 1 <= 4096 + 2048 ->
+  kernel_accepts rl {| argv := lens; envp := env_strings env; fname := fn |}.
+Proof.
+  unfold fits_system. intros H Hb Hne He Hf. apply andb_prop in H as [H1 H2]. split; cbn [argv envp fname].
+  - apply Forall_app. split; [|exact He]. apply Forall_forall. intros l Hl.
+    rewrite forallb_forall in H1. specialize (H1 l Hl). apply N.leb_le in H1. unfold max_single_arg in H1. unfold MAX_ARG_STRLEN. lia.
+  - apply N.leb_le in H2. rewrite Hb, fold8 in H2. unfold sys_budget in H2. rewrite env_size_spec in H2.
+    unfold env_strings in *. rewrite map_length in *.
+    assert (Hpos : 0 < strings lens + 8 * N.of_nat (length lens)).
+    { destruct lens; [congruence|]. cbn [length]. lia. }
+    lia.
+Qed.
+
 (* an argument longer than the per-argument limit is never part of any admitted batch *)
 Theorem oversize_never_admitted c b a : within_limits c b -> In a b -> alen a + 1 <= MAX_ARG_STRLEN.
 Proof.
